@@ -107,6 +107,11 @@ class Calls(DataModels):
             return self.call_method(I, func.obj, func.name, args, kw, node, fr)
         if isinstance(func, SpecFn):
             return func(I, *args, **kw)
+        if isinstance(func, StructRef):
+            r = StructRef(func.name, func.owner)
+            r.instance = True
+            r.kw = dict(kw)
+            return r
         if func is None:
             raise PyExc('TypeError', ln, 'None is not callable')
         if isinstance(func, Opaque):
@@ -115,6 +120,13 @@ class Calls(DataModels):
         if func in _BUILTIN_TABLE:
             return _BUILTIN_TABLE[func](self, I, args, kw, node)
         if isinstance(func, type):
+            try:
+                from elftools.construct.core import Construct
+                if issubclass(func, Construct) and all(isinstance(a, (str, bytes, int, type(None)))
+                                                       for a in list(args) + list(kw.values())):
+                    return func(*args, **kw)
+            except ImportError:
+                pass
             return self.construct(I, func, args, kw, node)
         mod = getattr(func, '__module__', None)
         if mod in ('specs',) or (mod or '').startswith('specs.'):
@@ -123,6 +135,10 @@ class Calls(DataModels):
         if key is not None:
             if key == ('elftools/common/utils.py', 'struct_parse'):
                 return self.struct_parse(I, args, kw, node)
+            if key[0].startswith('elftools/construct/') and key not in self.registry and \
+                    all(isinstance(a, (str, bytes, int, type(None))) for a in list(args) + list(kw.values())):
+                # construct factory macros with concrete arguments build a real construct object
+                return func(*args, **kw)
             return self.call_repo(I, key, func, args, kw, node)
         if I.pure and callable(func):
             try:
@@ -212,8 +228,10 @@ class Calls(DataModels):
                 if lay is None or lay.size is None:
                     raise Unsupported('sizeof of variable layout %s' % obj.name)
                 return lay.size(obj.owner) if callable(lay.size) else lay.size
-            if name in ('parse_stream', 'parse'):
-                raise Unsupported('direct parse_stream on struct ref')
+            if name == 'parse_stream':
+                return self.parse_at(I, obj, args[0], ln, exc='ConstructError')
+            if name == 'parse':
+                return self.parse_bytes(I, obj, args[0], ln)
             raise Unsupported('struct.%s' % name)
         if isinstance(obj, (SBytes, bytes)):
             return self.bytes_method(I, obj, name, args, kw, node)
@@ -230,7 +248,13 @@ class Calls(DataModels):
             raise Unsupported('SDict.%s' % name)
         if isinstance(obj, SList):
             if name == 'append':
-                raise Unsupported('append to symbolic list: use a ghost sequence contract')
+                v, n0, el0 = args[0], obj.n, obj.elem
+                obj.elem = lambda i, v=v, n0=n0, el0=el0: I.ite(to_int(i) == to_int(n0), v, el0(i)) \
+                    if is_sym(z3.simplify(to_int(i) == to_int(n0))) and not z3.is_true(z3.simplify(to_int(i) == to_int(n0))) \
+                    and not z3.is_false(z3.simplify(to_int(i) == to_int(n0))) \
+                    else (v if z3.is_true(z3.simplify(to_int(i) == to_int(n0))) else el0(i))
+                obj.n = z3.simplify(to_int(n0) + 1)
+                return None
             raise Unsupported('SList.%s' % name)
         if is_strlike(obj):
             return self.str_method(I, obj, name, args, kw, node)
@@ -247,6 +271,12 @@ class Calls(DataModels):
                 return None
         if isinstance(obj, Opaque):
             raise Unsupported('method %s on opaque %s (line %s)' % (name, obj.what, ln))
+        if self.is_construct(obj) and name in ('parse', 'parse_stream', 'sizeof'):
+            if name == 'parse_stream':
+                return self.parse_at(I, obj, args[0], ln, exc='ConstructError')
+            if name == 'parse':
+                return self.parse_bytes(I, obj, args[0], ln)
+            return obj.sizeof()
         if isinstance(obj, type) or inspect.ismodule(obj) or callable(getattr(obj, name, None)):
             f = getattr(obj, name, _MISSING)
             if f is _MISSING:
@@ -465,9 +495,28 @@ class Calls(DataModels):
             self.stream_seek(I, stream, pos, 0, ln)
         return self.parse_at(I, struct, stream, ln)
 
-    def parse_at(self, I, struct, stream, ln):
+    def is_construct(self, obj):
+        try:
+            from elftools.construct.core import Construct
+            return isinstance(obj, Construct)
+        except Exception:
+            return False
+
+    def parse_bytes(self, I, struct, data, ln):
+        """struct.parse(data): parse from the start of a bytes value; raw construct errors"""
+        if isinstance(data, (bytes, bytearray)):
+            data = self.to_sbytes(I, data)
+        if not isinstance(data, SBytes):
+            raise Unsupported('parse of %r' % (data,))
+        st = SStream(data.arr, z3.simplify(to_int(data.off) + to_int(data.n)), data.off, 'tmp')
+        return self.parse_at(I, struct, st, ln, exc='ConstructError')
+
+    def parse_at(self, I, struct, stream, ln, exc='ELFParseError'):
         p = stream.pos
-        if isinstance(struct, StructRef):
+        if isinstance(struct, StructRef) and struct.name == 'Elf_ntbs':
+            lay = cstring_layout(b'\x00', getattr(struct, 'kw', {}).get('encoding'))
+            owner = struct.owner
+        elif isinstance(struct, StructRef):
             lay = LAYOUTS.get(struct.name)
             if lay is None:
                 raise Unsupported('no layout registered for struct %s' % struct.name)
@@ -476,7 +525,7 @@ class Calls(DataModels):
             lay = self.layout_of_real(I, struct)
             owner = None
         if getattr(lay, 'custom', None):
-            return lay.custom(I, self, stream, owner, ln)
+            return lay.custom(I, self, stream, owner, ln, exc)
         size = lay.size(owner) if callable(lay.size) else lay.size
         pz = to_int(p)
         L = to_int(stream.length)
@@ -489,7 +538,7 @@ class Calls(DataModels):
             mins = lay.minsize if lay.minsize is not None else 0
             I.ctx.assume(z3.Implies(ok, z3.And(endf(stream.arr, pz) >= pz + mins, endf(stream.arr, pz) <= L)))
         if not I.ctx.branch(ok):
-            raise PyExc('ELFParseError', ln, 'short read in %s' % lay.name)
+            raise PyExc(exc if exc != 'ConstructError' else 'FieldError', ln, 'short read in %s' % lay.name)
         mk = UFMaker(I.ctx, stream.arr, pz, lay.name)
         val = self.layout_value(I, lay, mk)
         if size is not None:
@@ -507,7 +556,44 @@ class Calls(DataModels):
         """layouts of concrete construct objects built inline (ULInt8('') etc.)"""
         from . import k2
         nf = k2.normal_form(struct)
+        if nf[0] == 'cstring':
+            return cstring_layout(nf[1], nf[2])
         return k2.layout_from_nf(nf)
+
+
+nulpos = z3.Function('nulpos', ArrS, IntS, IntS)     # least q >= p with B[q] == 0
+
+
+def cstring_at(I, arr, length, p):
+    """(ok, q): q = position of the first NUL at or after p; ok iff q < length"""
+    p = to_int(p)
+    q = nulpos(arr, p)
+    j = z3.Int('j!nul')
+    I.ctx.assume(q >= p)
+    I.ctx.assume(z3.ForAll([j], z3.Implies(z3.And(j >= p, j < q), z3.Select(arr, j) != 0),
+                           patterns=[z3.Select(arr, j)]))
+    ok = q < to_int(length)
+    return ok, q
+
+
+def cstring_layout(terminators, encoding):
+    if terminators != b'\x00':
+        raise Unsupported('CString with terminators %r' % (terminators,))
+    lay = Layout('cstring', None)
+
+    def custom(I, M, stream, owner, ln, exc):
+        ok, q = cstring_at(I, stream.arr, stream.length, stream.pos)
+        if not I.ctx.branch(ok):
+            raise PyExc('ELFParseError' if exc == 'ELFParseError' else 'ArrayError', ln, 'C string without terminator')
+        I.ctx.assume(z3.Select(stream.arr, q) == 0)
+        p = stream.pos
+        val = SBytes(stream.arr, p, z3.simplify(q - to_int(p)))
+        stream.pos = z3.simplify(q + 1)
+        if encoding:
+            return M.bytes_method(I, val, 'decode', [encoding], {}, None)
+        return val
+    lay.custom = custom
+    return lay
 
 
 class SpecFn:
